@@ -1009,7 +1009,7 @@ func (s *c53Sys) Key() string {
 	return k
 }
 
-func c53Explore(r *mc.R, name string, lazy, full bool, depth int) {
+func c53Explore(r *mc.R, name string, lazy, full bool, depth int, init ...string) {
 	w := c53GetWorld()
 	ops := c53Alphabet(w, lazy, full)
 	names := make([]string, len(ops))
@@ -1017,11 +1017,37 @@ func c53Explore(r *mc.R, name string, lazy, full bool, depth int) {
 		names[i] = o.name
 	}
 	r.Bound(name+".ops", len(ops))
+	var initOps []int
+	for _, n := range init {
+		found := -1
+		for i, o := range ops {
+			if o.name == n {
+				found = i
+			}
+		}
+		if found < 0 {
+			panic("c53: unknown initial op " + n)
+		}
+		initOps = append(initOps, found)
+	}
+	if len(init) > 0 {
+		r.Bound(name+".initial_state", strings.Join(init, ";"))
+	}
 	r.Explore(mc.Config{
 		Name:  name,
 		Ops:   names,
 		Depth: depth,
-		New:   func() mc.Sys { return c53NewSys(r, w, ops, lazy) },
+		New: func() mc.Sys {
+			s := c53NewSys(r, w, ops, lazy)
+			for _, o := range initOps {
+				s.final = true // the initial prefix is fully checked as well
+				if err := s.Apply(o); err != nil {
+					panic(fmt.Sprintf("c53: initial op %s: %v", ops[o].name, err))
+				}
+			}
+			s.last, s.acc, s.rej = "", 0, 0
+			return s
+		},
 		Close: func(x mc.Sys) {
 			s := x.(*c53Sys)
 			if s.last != "" {
@@ -1049,9 +1075,14 @@ func TestVerif_C53(t *testing.T) {
 		r.Assume("reference model = three period->id maps transcribed from the documented CommitteeChain constraints; safety invariants are additionally asserted on the database content without the model")
 		r.Bound("periods", c53MaxP+1)
 		r.Bound("threshold", c53Thr)
-		c53Explore(r, "eager", false, r.Thorough(), mc.Pick(r, 5, 6))
+		c53Explore(r, "eager", false, r.Thorough(), mc.Pick(r, 5, 7))
 		if !r.Expired() {
-			c53Explore(r, "lazy", true, r.Thorough(), mc.Pick(r, 4, 5))
+			// from a synced chain (root 1 fixed, committees 1..3, updates 1..2): deeper reorg / rollback / un-fix histories
+			c53Explore(r, "synced", false, r.Thorough(), mc.Pick(r, 3, 5),
+				"fix(1,G)", "addCommittee(1,G)", "insert(g1,G2)", "insert(g2,G3)")
+		}
+		if !r.Expired() {
+			c53Explore(r, "lazy", true, r.Thorough(), mc.Pick(r, 4, 6))
 		}
 	})
 }
